@@ -62,6 +62,9 @@ struct Subst {
     /// `old` is a regular expression (capture groups usable as $1.. in `new`)
     #[serde(default)]
     re: bool,
+    /// regex substitutions only: replace every match (default: the regex must match exactly once)
+    #[serde(default)]
+    all: bool,
 }
 
 #[derive(Deserialize, Default, Clone)]
@@ -934,6 +937,11 @@ impl<'ast, 't> Visit<'ast> for Normaliser<'t> {
                         let hit = phase.as_ref().and_then(|ph| self.sends.iter().find(|s| s.callee == callee && &s.phase == ph)).cloned();
                         let (fs, fe) = br(last.ident.span());
                         if let Some(h) = hit {
+                            if h.wrapper == callee && h.extra.is_empty() {
+                                // listed without a policy: the call stays as it is
+                                syn::visit::visit_expr_call(self, c);
+                                return;
+                            }
                             self.push(fs, fe, h.wrapper.clone(), "N8");
                             if !h.extra.is_empty() {
                                 let (_, ce) = br(c.span());
@@ -1361,6 +1369,12 @@ fn main() {
             if sb.re {
                 let rx = Regex::new(&sb.old).unwrap_or_else(|er| fail(&job.report, Report::default(), format!("bad subst regex {}: {}", sb.old, er)));
                 let n = rx.find_iter(body).count();
+                if sb.all && n >= 1 {
+                    let replaced = rx.replace_all(body, sb.new.as_str()).to_string();
+                    rep.rules.push(RuleApp { rule: format!("SUBST(all x{}) {}", n, sb.why), item: it.path.clone(), line: line_of(&text, s), old: sb.old.clone(), new: sb.new.clone() });
+                    text.replace_range(s..e, &replaced);
+                    continue;
+                }
                 if n != 1 {
                     if !sb.required {
                         rep.rules.push(RuleApp { rule: format!("SUBST-NOT-APPLIED {}", sb.why), item: it.path.clone(), line: 0, old: sb.old.clone(), new: String::new() });
@@ -1417,6 +1431,10 @@ fn main() {
             };
             for fp in &fns {
                 sig_edits(&text, fp, &on, &it.arg_names, &mut edits);
+                // external_body items keep their body verbatim (only the signature rules apply)
+                if it.attrs.iter().any(|a| a.contains("external_body") || a.contains("verifier::external]")) {
+                    continue;
+                }
                 let mut nz = Normaliser { method_to_fn_val: it.method_to_fn_val.iter().filter_map(|(r, m, f)| Regex::new(r).ok().map(|r| (r, m.clone(), f.clone()))).collect(), skip_sites: &job.skip_sites, method_to_fn: it.method_to_fn.iter().filter_map(|(r, m, f)| Regex::new(r).ok().map(|r| (r, m.clone(), f.clone()))).collect(), eq_sites: it.eq_sites.iter().filter_map(|r| Regex::new(r).ok()).collect(), deref_operands: it.deref_operands.clone(), sends: it.sends.clone(), n2_types: it.n2_types.iter().filter_map(|(r, t)| Regex::new(r).ok().map(|r| (r, t.clone()))).collect(), let_types: it.let_types.clone(), n9: it.n9, n6: it.n6.clone(), reg_index: it.reg_index.clone(), bool_and: it.bool_and.iter().filter_map(|r| Regex::new(r).ok()).collect(), n3_all: it.n3.as_deref() == Some("all"), n3_match: it.n3_match.iter().filter_map(|r| Regex::new(r).ok()).collect(), text: &text, edits: vec![], on: &on, eager_futs: vec![] };
                 nz.visit_block(fp.block);
                 edits.extend(nz.edits);
